@@ -272,6 +272,8 @@ def finish(
     problems = []
     if graph and (states < 1 or transitions < 1):
         problems.append("no states/transitions explored")
+    if not acc.samples:
+        problems.append("no sample case recorded")
     if len(acc.outcomes) < 2:
         problems.append("fewer than two distinct outcomes (vacuous)")
     for name in meta.get("required_counters", []):
